@@ -46,4 +46,4 @@ let () =
               of_keyres op; of_keyres oz; oracle;
               of_list (of_pair of_str of_bool) (M.c04_spec_keys cf c)]
     | _ -> failwith "c04-case: bad case");
-  Registry.register "camel" (fun s -> of_str (M.c04_tauri_camel (str_ s)))
+  Registry.register "camel" (fun s -> List [of_str (M.c04_tauri_camel (str_ s)); of_str (M.c04_tauri_snake (str_ s))])
